@@ -20,13 +20,17 @@
      let_quant_side e    quant_free x body for every bound name x
      inline_side_ty d a  inline_side (Proofs/Rw/InlineSide.v) with type_pos_only
      inline_quant_side d quant_free p body for every formal p
+     inline_guard d a    the guard of the mutator (after the fix of F19, Proofs/Rw/InlineSide.v)
+     inline_side_ty_guarded d a
+                         inline_side_ty without the two conjuncts that the guard establishes
+                         (Proofs/Rw/InlineGuard.v): formal_ok, distinct names, type_pos_only
      builtin_op n        n is one of the operator names that type_app interprets
      user_head g n       an application with the head n is typed by the signature
                          of n in e_funs g: n is not _, let, forall, exists, !,
                          no builtin_op, no constructor or selector of e_dts g. *)
 From DD Require Import Spec.Semantics Spec.Typing Model.Rewrites Model.LetRw Model.InlineRw.
 From DD Require Import Proofs.Rw.TypeBase Proofs.Rw.LetSide Proofs.Rw.InlineSide Proofs.Rw.InlineSubst.
-From DD Require Import Proofs.Rw.LetSort Proofs.Rw.InlineSort.
+From DD Require Import Proofs.Rw.LetSort Proofs.Rw.InlineSort Proofs.Rw.InlineGuard.
 Local Open Scope list_scope.
 
 (* ================= (A) LetSubstitution ================= *)
@@ -296,15 +300,17 @@ Example cex_inline_sort_quant_sort :
 Proof. eexists. vm_compute. repeat split. Qed.
 
 (* F19, capture, for sorts: (define-fun g ((x Int)) Int (let ((y true)) (ite y x 0))) and the call (g y), y : Int:
-   the call is Int, the proposal (let ((y true)) (ite y y 0)) has no sort *)
+   the call is Int, the substituted body (let ((y true)) (ite y y 0)) has no sort.  Before the fix of F19 that
+   was the proposal; the guard holds and nothing is proposed now *)
 Definition g_gy : env := mk_env [(lit "y", sInt)] [(lit "g", ([sInt], sInt))] [].
 Definition d_cap : defn := mk_defn (lit "g") [fm "x"] (mklet [bd "y" (lf "true")] (ap "ite" [lf "y"; lf "x"; lf "0"])).
 Example cex_inline_sort_capture :
-  exists e', rw_inline [d_cap] (ap "g" [lf "y"]) = Some [e'] /\
+  exists e', subst_map (combine (map L (formal_names d_cap)) [lf "y"]) (d_body d_cap) = e' /\
              e' = mklet [bd "y" (lf "true")] (ap "ite" [lf "y"; lf "y"; lf "0"]) /\
              type_of (bind_vars g_gy (combine (formal_names d_cap) [sInt])) (d_body d_cap) = Some sInt /\
              type_of g_gy (ap "g" [lf "y"]) = Some sInt /\ type_of g_gy e' = None /\
-             inline_side_ty d_cap [lf "y"] = false.
+             inline_side_ty d_cap [lf "y"] = false /\
+             inline_guard d_cap [lf "y"] = true /\ rw_inline [d_cap] (ap "g" [lf "y"]) = Some [].
 Proof. eexists. vm_compute. repeat split. Qed.
 
 (* two formals of one name: (define-fun f ((a Int) (a Bool)) Int a), (f 1 true): the first one counts for
@@ -329,3 +335,94 @@ Example cex_inline_sort_builtin_name :
   type_of g_plus (ap "+" [lf "1"; lf "2"]) = Some sInt /\ type_of g_plus (ap ">" [lf "1"; lf "2"]) = Some sBool /\
   user_head g_plus (lit "+") = false.
 Proof. vm_compute. repeat split. Qed.
+
+(* ================= (B) after the fix of F19: the guard carries a part of the side condition ================= *)
+
+(* a proposal for the call means that the guard did not hold; with it, the weaker condition is the full one *)
+Theorem rw_inline_guard_gives_side_ty : forall defs e l e' n d args,
+  rw_inline defs e = Some l -> In e' l ->
+  e = T (L n :: args) \/ (e = L n /\ args = []) ->
+  lookup_def defs n = Some d ->
+  inline_side_ty_guarded d args = true -> inline_side_ty d args = true.
+Proof. exact inline_guard_gives_side_ty. Qed.
+Print Assumptions rw_inline_guard_gives_side_ty.
+
+Theorem inline_unguarded_side_ty : forall d args,
+  inline_guard d args = false -> inline_side_ty_guarded d args = true -> inline_side_ty d args = true.
+Proof. exact guard_side_ty. Qed.
+Print Assumptions inline_unguarded_side_ty.
+
+Theorem inline_side_ty_gives_guarded : forall d args, inline_side_ty d args = true -> inline_side_ty_guarded d args = true.
+Proof. exact side_ty_guarded_of_side_ty. Qed.
+Print Assumptions inline_side_ty_gives_guarded.
+
+(* rw_inline_sort with the weaker side condition *)
+Theorem rw_inline_sort_guarded : forall defs e l e' n d args g sorts s,
+  rw_inline defs e = Some l -> In e' l ->
+  e = T (L n :: args) \/ (e = L n /\ args = []) ->
+  lookup_def defs n = Some d ->
+  inline_side_ty_guarded d args = true ->
+  type_args g args = Some sorts ->
+  type_of (bind_vars g (combine (formal_names d) sorts)) (d_body d) = Some s ->
+  type_of g e' = Some s.
+Proof. exact inline_sort_guarded. Qed.
+Print Assumptions rw_inline_sort_guarded.
+
+(* rw_inline_sort_inline_side with the weaker side condition of the value theorem (rw_inline_identity_guarded) *)
+Theorem rw_inline_sort_inline_side_guarded : forall defs e l e' n d args g sorts s,
+  rw_inline defs e = Some l -> In e' l ->
+  e = T (L n :: args) \/ (e = L n /\ args = []) ->
+  lookup_def defs n = Some d ->
+  inline_side_guarded d args = true -> inline_quant_side d = true ->
+  type_args g args = Some sorts ->
+  type_of (bind_vars g (combine (formal_names d) sorts)) (d_body d) = Some s ->
+  type_of g e' = Some s.
+Proof. exact inline_sort'_guarded. Qed.
+Print Assumptions rw_inline_sort_inline_side_guarded.
+
+(* rw_inline_same_sort with the weaker side condition *)
+Theorem rw_inline_same_sort_guarded : forall defs l e' n d args g sig r s,
+  rw_inline defs (T (L n :: args)) = Some l -> In e' l ->
+  lookup_def defs n = Some d ->
+  inline_side_ty_guarded d args = true ->
+  user_head g n = true -> Typing.assoc n (e_funs g) = Some (sig, r) ->
+  type_of (bind_vars g (combine (formal_names d) sig)) (d_body d) = Some r ->
+  type_of g (T (L n :: args)) = Some s -> type_of g e' = Some s.
+Proof. exact inline_same_sort_guarded. Qed.
+Print Assumptions rw_inline_same_sort_guarded.
+
+Definition qe (vs : list sexp) (body : sexp) : sexp := T [lf "exists"; T vs; body].
+Definition g_q : env := mk_env [(lit "q", sInt); (lit "y", sInt)] [(lit "g", ([sInt], sBool)); (lit "f", ([sInt], sBool))] [].
+
+(* the capture instance of F19 with a quantifier: (define-fun g ((p Int)) Bool (exists ((y Int)) (> y p))), (g y) *)
+Definition d_ex : defn := mk_defn (lit "g") [fm "p"] (qe [fm "y"] (ap ">" [lf "y"; lf "p"])).
+Example f19_no_proposal_sort :
+  rw_inline [d_ex] (ap "g" [lf "y"]) = Some [] /\ inline_guard d_ex [lf "y"] = true /\
+  inline_side_ty_guarded d_ex [lf "y"] = true /\ inline_side_ty d_ex [lf "y"] = false.
+Proof. vm_compute. repeat split. Qed.
+
+(* a formal that is bound again: (define-fun f ((x Int)) Bool (forall ((x Int)) (>= SQ 0))), SQ the product of
+   x and x, and the call (f (- 5)): the substituted body has the binder ((- 5) Int) and no sort *)
+Definition d_all : defn := mk_defn (lit "f") [fm "x"] (qf [fm "x"] (ap ">=" [ap "*" [lf "x"; lf "x"]; lf "0"])).
+Example f19_rebound_no_proposal_sort :
+  rw_inline [d_all] (ap "f" [ap "-" [lf "5"]]) = Some [] /\ inline_guard d_all [ap "-" [lf "5"]] = true /\
+  type_of g_q (ap "f" [ap "-" [lf "5"]]) = Some sBool /\
+  type_of g_q (subst_map (combine (map L (formal_names d_all)) [ap "-" [lf "5"]]) (d_body d_all)) = None.
+Proof. vm_compute. repeat split. Qed.
+
+(* not vacuous: the quantifier binds neither the formal nor a leaf of the actual, (g (+ q 1)) *)
+Example ex_inline_sort_guarded :
+  let a := ap "+" [lf "q"; lf "1"] in
+  rw_inline [d_ex] (ap "g" [a]) = Some [qe [fm "y"] (ap ">" [lf "y"; a])] /\
+  lookup_def [d_ex] (lit "g") = Some d_ex /\ inline_side_ty_guarded d_ex [a] = true /\
+  user_head g_q (lit "g") = true /\ Typing.assoc (lit "g") (e_funs g_q) = Some (formal_sorts d_ex, sBool) /\
+  type_of (bind_vars g_q (combine (formal_names d_ex) (formal_sorts d_ex))) (d_body d_ex) = Some sBool /\
+  type_of g_q (ap "g" [a]) = Some sBool.
+Proof. vm_compute. repeat split. Qed.
+
+Example ex_inline_sort_guarded_applied :
+  type_of g_q (qe [fm "y"] (ap ">" [lf "y"; ap "+" [lf "q"; lf "1"]])) = Some sBool.
+Proof.
+  apply (rw_inline_same_sort_guarded [d_ex] _ _ (lit "g") d_ex [ap "+" [lf "q"; lf "1"]] g_q (formal_sorts d_ex) sBool sBool
+           (proj1 ex_inline_sort_guarded)); [left; reflexivity | | | | | |]; vm_compute; reflexivity.
+Qed.
